@@ -311,4 +311,26 @@ MUTANTS = {
     "rev_fix_adversarial_refit": {
         "props": ["C19"], "what": "revert fix aba7a15: refit continues training",
         "edits": [(AM, "        if not self.warm_start and hasattr(self, \"classes_\"):\n            # without warm_start, fit() discards what earlier calls learned\n            del self.classes_\n", "")]},
+    # ---------------------------------------------------------------- C19 life cycle
+    "rev_fix_gridsearch_returns_self": {
+        "props": ["C19"], "what": "revert fix db4b0e6: GridSearch.fit returns None",
+        "edits": [(GS, "            raise RuntimeError(\"Unsupported selection rule\")\n\n        return self\n", "            raise RuntimeError(\"Unsupported selection rule\")\n\n        return\n")]},
+    "rev_fix_moment_reload": {
+        "props": ["C19", "C06"], "what": "revert fix 2221f5a: a moment refuses a second load_data",
+        "edits": [(MO, "        if sensitive_features is not None:\n            assert isinstance(sensitive_features, pd.Series)\n        self.X = X", "        assert self.data_loaded is False, \"data can be loaded only once\"\n        if sensitive_features is not None:\n            assert isinstance(sensitive_features, pd.Series)\n        self.X = X")]},
+    "to_reuses_fitted_estimator": {
+        "props": ["C19"], "what": "ThresholdOptimizer keeps estimator_ from an earlier fit instead of cloning and refitting",
+        "edits": [(TO, "            self.estimator_ = clone(self.estimator)\n            self.estimator_.fit(X, y, **kwargs)", "            if not hasattr(self, \"estimator_\"):\n                self.estimator_ = clone(self.estimator)\n                self.estimator_.fit(X, y, **kwargs)")]},
+    "eg_predict_caches_pmf": {
+        "props": ["C19"], "what": "EG.predict caches the pmf of the first query in fitted state",
+        "edits": [(EG, "            positive_probs = self._pmf_predict(X)[:, 1]\n", "            if not hasattr(self, \"_pp\") or len(self._pp) != len(X):\n                self._pp = self._pmf_predict(X)[:, 1]\n            positive_probs = self._pp\n")]},
+    "eg_lagrangian_state_survives_refit": {
+        "props": ["C19"], "what": "EG keeps the EG multiplier history of the previous fit (lambda_vecs_EG_ not reset)",
+        "edits": [(EG, "        self.lambda_vecs_EG_ = pd.DataFrame()\n", "        self.lambda_vecs_EG_ = getattr(self, \"lambda_vecs_EG_\", pd.DataFrame())\n")]},
+    "corr_lookup_only_on_first_fit": {
+        "props": ["C19", "C15"], "what": "CorrelationRemover builds its name->position lookup only on the first fit",
+        "edits": [(CR, "        self._check_sensitive_features_in_X(X)\n        self._create_lookup(X)\n", "        self._check_sensitive_features_in_X(X)\n        if first_call:\n            self._create_lookup(X)\n")]},
+    "gridsearch_appends_to_previous_fit": {
+        "props": ["C19"], "what": "GridSearch.fit keeps the predictors of a previous fit",
+        "edits": [(GS, "        self.predictors_ = []\n", "        self.predictors_ = getattr(self, \"predictors_\", [])\n")]},
 }
